@@ -99,6 +99,11 @@ def test_matrix(kind: str, n: int) -> list:
             elif j > i:
                 m[i][j] = m[j][i] = 101 + 3 * k
                 k += 1
+    if kind == "negative_sym":
+        # the constructor accepts negative distances as long as every city
+        # has a positive farthest neighbour and the row minima do not sum
+        # to a negative bound
+        m[0][1] = m[1][0] = -1
     return m
 
 
@@ -212,6 +217,8 @@ def explicit_jobs(ctx):
             ntok = len(M.cells(fmt, n))
             total = 1 << (ntok - 1)
             kinds = ["distinct_sym", "equal"]
+            if n >= 3:
+                kinds.append("negative_sym")
             if fmt == "FULL_MATRIX":
                 kinds.insert(0, "distinct_asym")
             for kind in kinds:
@@ -359,6 +366,11 @@ def roundtrip_jobs(ctx):
         ("b_n4_symmetric_small_alphabet", 4, V_SMALL, True, "stream",
          ("rt",), ((),)),
     ]
+    # matrices with negative entries (accepted when the bounds stay >= 0)
+    specs.append(("b_n3_with_negative_entries", 3, (-1, 0, 2, 5), False,
+                  "stream", ("rt",), ((),)))
+    specs.append(("b_n4_symmetric_with_negative_entries", 4, (-1, 0, 3),
+                  True, "stream", ("rt",), ((),)))
     # nearly symmetric matrices: entries that differ by one unit at large
     # magnitudes (a symmetry test with a tolerance would merge them)
     for bv in (100_000, 2 ** 31, 10 ** 12 - 1):
